@@ -228,8 +228,15 @@ class GriffeLoader:
         # this time with the user-configured `external` setting,
         # and with potentially more packages loaded in the collection,
         # allowing to resolve more aliases.
-        for wildcards_module in list(collection.values()):
-            self.expand_wildcards(wildcards_module, external=external)
+        # Expanding wildcards can load packages, whose own wildcards are then expanded the same way.
+        def expand_all_wildcards() -> None:
+            expanded_modules = -1
+            while expanded_modules != len(collection):
+                expanded_modules = len(collection)
+                for wildcards_module in list(collection.values()):
+                    self.expand_wildcards(wildcards_module, external=external)
+
+        expand_all_wildcards()
 
         load_failures: set[str] = set()
         progress = False
@@ -252,6 +259,9 @@ class GriffeLoader:
             # An iteration that resolved aliases or loaded packages calls for another one,
             # even if it ends with the same unresolved aliases as the previous iteration.
             progress = bool(resolved) or len(collection) != loaded_modules
+            # Wildcard imports from packages that just got loaded can now be expanded.
+            if len(collection) != loaded_modules:
+                expand_all_wildcards()
             logger.debug(
                 "Iteration %s finished, %s aliases resolved, still %s to go",
                 iteration,
